@@ -8,6 +8,11 @@ Families
   const      empty and offset-only models of every kind x every menu predicate x both modes (exhaustive)
   malformed  plain dicts of degree >= 3 given to solve_qubo/quso_bruteforce (outside the property's domain:
              correspondence only, the model uses the same truncating value function)
+  mhist      Matrix objects (all four types) edited in place after construction so that a variable's terms cancel
+             (`M[k] -= c`, `M[k] = 0`, `M -= {...}`, `M += {...}`) and *not* refreshed: the cached `_variables` /
+             `num_binary_variables` are stale, but `_solve_bruteforce` scans the keys of Matrix objects, so the
+             property must hold on them (free functions and `.solve_bruteforce()`); the model is fed what the code
+             reads (the stored terms, no bookkeeping)
   problem    `Problem.solve_bruteforce` wrappers (oracle only: the converted minimisers of `to_qubo()`)
   probe      freshly constructed BO objects whose bookkeeping is stale from birth (DESIGN.md §10 D1):
              correspondence only (the model predicts the KeyError / the extra variables); counted in the
@@ -29,7 +34,9 @@ RULE = ("models with 1..8 variables and 1..8 terms, small integer / Fraction / d
         "offsets, all ten model types + plain dicts with raw keys, predicate menu always/never/parity/threshold/"
         "excluded assignment/table, both modes, four free functions and the methods; a case is non-trivial when the "
         "model has >= 2 variables and >= 2 terms and at least one assignment is valid; distinct = distinct case JSON")
-ASSUMPTIONS = ["float coefficients (dyadic floats given directly, and the floats PCSO constraints create) are kept dyadic so "
+ASSUMPTIONS = ["BO types (labelled, with `_reverse_mapping`) are taken in refreshed state; Matrix types are also taken "
+               "with a stale variable cache (family mhist), because the code does not read the cache for them",
+               "float coefficients (dyadic floats given directly, and the floats PCSO constraints create) are kept dyadic so "
                "that IEEE arithmetic is exact; float rounding is outside the model",
                "models are taken in refreshed bookkeeping state (labels of the stored keys = mapping = variables); "
                "stale bookkeeping (DESIGN.md §10 D1) is C14's subject and only probed here",
@@ -163,6 +170,48 @@ def gen_case(rng, family, big=False):
         c["valid"] = gen_pred(rng, n, fn in SPIN_FN)
     return c
 
+HIST_OPS = ["isub", "set0", "isubdict", "iadddict"]
+
+def gen_hist_case(rng, via):
+    """a Matrix object whose variable cache is stale: label `n` (and sometimes another label) occurs only in terms
+    that are cancelled in place after construction"""
+    kind = rng.choice(sorted(MATRIX))
+    fn = FN_OF_KIND[kind] if via == "method" else rng.choice([f for f in KINDS_OF_FN if kind in KINDS_OF_FN[f]])
+    n = rng.choice([1, 2, 2, 3, 3, 4, 5])
+    terms = gen_terms(rng, n, fn, kind, nterms=rng.randint(1, 6))
+    extra = [[[n], gen_coef(rng, False)]]
+    if rng.random() < 0.6:
+        extra.append([sorted([rng.randrange(n), n]), gen_coef(rng, False)])
+    for t in extra:
+        terms.insert(rng.randrange(len(terms) + 1), t)
+    hist = [{"op": rng.choice(HIST_OPS), "var": n}]
+    if rng.random() < 0.3:
+        hist.append({"op": rng.choice(HIST_OPS), "var": rng.randrange(n)})
+    c = {"family": "mhist", "fn": fn, "kind": kind, "n": n + 1, "terms": terms, "hist": hist, "labels": "int",
+         "num": rng.choice(["int", "int", "frac", "float"]), "all": rng.random() < 0.5, "via": via,
+         "seed": rng.randrange(1 << 30),
+         "valid": {"t": "always"} if via == "method" else gen_pred(rng, n, fn in SPIN_FN)}
+    if c["num"] == "float" and not all(dyadic(v) for _, v in terms):
+        c["num"] = "frac"
+    return c
+
+def apply_hist(obj, hist, L):
+    """in-place edits that cancel every stored term containing the given label; no refresh()"""
+    for step in hist:
+        lab = lab_of(L, step["var"])
+        victims = [k for k in list(obj) if lab in k]
+        if step["op"] == "isub":
+            for k in victims:
+                obj[k] -= obj[k]
+        elif step["op"] == "set0":
+            for k in victims:
+                obj[k] = 0
+        elif step["op"] == "isubdict":
+            obj -= {k: obj[k] for k in victims}
+        else:
+            obj += {k: -obj[k] for k in victims}
+    return obj
+
 def gen_constraints(rng, n, kind):
     cons = []
     for _ in range(rng.choice([1, 1, 2])):
@@ -215,6 +264,11 @@ def build(case, refresh=True):
     for con in case.get("cons", []):
         p = {tuple(lab_of(L, i) for i in key): num_of(v, "int") for key, v in con["p"]}
         getattr(obj, "add_constraint_%s_zero" % con["rel"])(p)
+    if case.get("hist"):
+        o2 = apply_hist(obj, case["hist"], L)
+        if o2 is not obj:
+            return obj, None
+        return obj, ("edited-consistent" if consistent(obj) else "edited-stale-cache")
     if consistent(obj):
         return obj, "fresh"
     if not refresh:
@@ -681,6 +735,8 @@ def gen_all(ctx):
     cases += [gen_case(rng, "method") for _ in range(ctx.scale(1500, 20000))]
     cases += [gen_case(rng, "free", big=True) for _ in range(ctx.scale(150, 3000))]
     cases += [gen_case(rng, "method", big=True) for _ in range(ctx.scale(80, 1500))]
+    cases += [gen_hist_case(rng, "free") for _ in range(ctx.scale(600, 8000))]
+    cases += [gen_hist_case(rng, "method") for _ in range(ctx.scale(400, 5000))]
     cases += [malformed_case(rng) for _ in range(ctx.scale(200, 2000))]
     cases += [probe_case(rng) for _ in range(ctx.scale(150, 1500))]
     cases += problem_cases(rng, ctx.scale(150, 1500))
@@ -709,6 +765,7 @@ def search(ctx):
             if c["kind"] != "dict" and FN_OF_KIND[c["kind"]] == c["fn"]:
                 extra.append(dict(c, all=al, valid={"t": "always"}, via="method", family="method"))
     extra += [gen_case(ctx.rng, ctx.rng.choice(["free", "method"])) for _ in range(3000)]
+    extra += [gen_hist_case(ctx.rng, ctx.rng.choice(["free", "method"])) for _ in range(1000)]
     for c in extra:
         L = Labels(c["labels"])
         obj, tag = build(c)
